@@ -71,6 +71,22 @@ fn cols() -> Vec<Column> {
     vec![Column::build("K").primary_key().int32(), Column::build("S").nullable().string(0)]
 }
 
+/// a scenario that panics is a failed scenario (and must not keep the later ones from running)
+fn guarded(f: impl FnOnce() -> Result<(), String>) -> Result<(), String> {
+    let hook = std::panic::take_hook();
+    let msg = std::sync::Arc::new(std::sync::Mutex::new(String::new()));
+    let m2 = msg.clone();
+    std::panic::set_hook(Box::new(move |info| {
+        *m2.lock().unwrap() = info.to_string();
+    }));
+    let r = std::panic::catch_unwind(std::panic::AssertUnwindSafe(f));
+    std::panic::set_hook(hook);
+    match r {
+        Ok(r) => r,
+        Err(_) => Err(format!("the scenario panics: {}", msg.lock().unwrap().replace('\n', " "))),
+    }
+}
+
 fn report(name: &str, r: Result<(), String>) {
     match r {
         Ok(()) => println!("OUT {}=ok", name),
@@ -1022,26 +1038,26 @@ fn s_join_names() -> Result<(), String> {
 
 #[test]
 fn replay_protocol() {
-    report("create_rejected", s_create_rejected());
-    report("relational", s_relational());
-    report("keys", s_keys());
-    report("join_names", s_join_names());
-    report("select_names", s_select_names());
-    report("join", s_join());
-    report("update_accounting", s_update_accounting());
-    report("gate", s_gate());
-    report("streams", s_streams());
-    report("summary_after_table_flush", s_summary_after_table(0));
-    report("summary_after_table_into_inner", s_summary_after_table(1));
-    report("summary_after_table_drop", s_summary_after_table(2));
-    report("summary_twice", s_summary_twice());
-    report("codepage", s_codepage());
-    report("rows_flush", s_rows(0));
-    report("rows_into_inner", s_rows(1));
-    report("rows_drop", s_rows(2));
-    report("pool_shrinks", s_pool_shrinks());
-    report("readonly", s_readonly());
-    report("faults", s_faults());
+    report("create_rejected", guarded(|| s_create_rejected()));
+    report("relational", guarded(|| s_relational()));
+    report("keys", guarded(|| s_keys()));
+    report("join_names", guarded(|| s_join_names()));
+    report("select_names", guarded(|| s_select_names()));
+    report("join", guarded(|| s_join()));
+    report("update_accounting", guarded(|| s_update_accounting()));
+    report("gate", guarded(|| s_gate()));
+    report("streams", guarded(|| s_streams()));
+    report("summary_after_table_flush", guarded(|| s_summary_after_table(0)));
+    report("summary_after_table_into_inner", guarded(|| s_summary_after_table(1)));
+    report("summary_after_table_drop", guarded(|| s_summary_after_table(2)));
+    report("summary_twice", guarded(|| s_summary_twice()));
+    report("codepage", guarded(|| s_codepage()));
+    report("rows_flush", guarded(|| s_rows(0)));
+    report("rows_into_inner", guarded(|| s_rows(1)));
+    report("rows_drop", guarded(|| s_rows(2)));
+    report("pool_shrinks", guarded(|| s_pool_shrinks()));
+    report("readonly", guarded(|| s_readonly()));
+    report("faults", guarded(|| s_faults()));
 }
 
 /// C10: summary strings survive saving under every code page, also after switching code pages back and forth
